@@ -75,4 +75,173 @@ def resV : Step Unit Unit → Res Unit
   | .pidx s => .pidx s.hp s.self
   | .ub u => .ub u
 
+/-! ### ties in the form a *caller* can rewrite with -/
+
+/-- what `call` makes of the callee's outcome: an early return is the value of the call -/
+def norm {ρ ρ' : Type} : Step ρ ρ → Step ρ' ρ
+  | .next a s | .done a s => .next a s
+  | .pidx s => .pidx s
+  | .ub u => .ub u
+
+theorem norm_next {ρ ρ' : Type} (a : ρ) (s : St) : (norm (.next a s) : Step ρ' ρ) = .next a s := rfl
+theorem norm_done {ρ ρ' : Type} (a : ρ) (s : St) : (norm (.done a s) : Step ρ' ρ) = .next a s := rfl
+theorem norm_pidx {ρ ρ' : Type} (s : St) : (norm (.pidx s : Step ρ ρ) : Step ρ' ρ) = .pidx s := rfl
+theorem norm_ub {ρ ρ' : Type} (u : UB) : (norm (.ub u : Step ρ ρ) : Step ρ' ρ) = .ub u := rfl
+
+theorem call_norm {ρ ρ' : Type} (m : M ρ ρ) (s : St) : (Rt.call m : M ρ' ρ) s = norm (m s) := by
+  rw [call_ap]; cases m s <;> rfl
+
+/-- a hand-model outcome of a `Result<(), ReserveError>` method, as the step the caller sees -/
+def stepOfRes {ρ' : Type} (rf : Refuse) (st : List Bytes) : Res Unit → Step ρ' (Rs Unit)
+  | .ok _ hp r => .next (.ok ()) ⟨rf, st, hp, r⟩
+  | .err hp r => .next .err ⟨rf, st, hp, r⟩
+  | .pidx hp r | .pcb hp r => .pidx ⟨rf, st, hp, r⟩
+  | .ub u => .ub u
+
+/-! ### outcomes the hand model never produces -/
+
+theorem moveTo_ne_pcb (hp : Heap) (r : Handle) (l : Nat) (res : Option Nat × Heap) (hp1 : Heap) (r1 : Handle) :
+    moveTo hp r l res ≠ .pcb hp1 r1 := by
+  intro h; unfold moveTo at h
+  split at h
+  · cases h
+  · split at h <;> cases h
+theorem reserve_ne_pcb (rf : Refuse) (st : List Bytes) (hp : Heap) (r : Handle) (n : Nat) (hp1 : Heap) (r1 : Handle) :
+    reserve rf st hp r n ≠ .pcb hp1 r1 := by
+  intro h
+  unfold reserve at h
+  simp only [] at h
+  repeat' split at h
+  all_goals first | (cases h; done) | exact moveTo_ne_pcb _ _ _ _ _ _ h
+theorem ensureModifiable_ne_pcb (rf : Refuse) (st : List Bytes) (hp : Heap) (r : Handle) (hp1 : Heap) (r1 : Handle) :
+    ensureModifiable rf st hp r ≠ .pcb hp1 r1 := by
+  intro h
+  unfold ensureModifiable at h
+  repeat' split at h
+  all_goals first | (cases h; done) | exact moveTo_ne_pcb _ _ _ _ _ _ h
+
+/-! ### what a successful hand-model write says about the raw slice the code takes -/
+
+theorem slice_of_write {ρ : Type} (rf : Refuse) (st : List Bytes) {hp1 : Heap} {r1 : Handle} {off : Nat} {bytes : Bytes}
+    {hp2 : Heap} {r2 : Handle} (h : writeBytes hp1 r1 off bytes = .ok (hp2, r2)) :
+    ∃ c, (Repr.as_slice_mut : M ρ SliceMut) ⟨rf, st, hp1, r1⟩ = .next ⟨0, c⟩ ⟨rf, st, hp1, r1⟩ ∧ off + bytes.length ≤ c := by
+  cases r1 with
+  | stat i l => simp only [writeBytes] at h; cases h
+  | inl raw =>
+    simp only [writeBytes] at h
+    split at h
+    · rename_i hc; exact ⟨MAX_INLINE, as_slice_mut_inl rf st hp1 raw, hc.1⟩
+    · cases h
+  | heap a l =>
+    simp only [writeBytes, Heap.write] at h
+    cases hg : hp1.get? a with
+    | none => rw [hg] at h; cases h
+    | some b =>
+      rw [hg] at h; simp only at h
+      refine ⟨b.cap, as_slice_mut_heap rf st hp1 a l hg, ?_⟩
+      by_cases h1 : b.rc ≠ 1
+      · rw [if_pos h1] at h; cases h
+      · rw [if_neg h1] at h
+        by_cases h2 : off + bytes.length > b.cap
+        · rw [if_pos h2] at h; cases h
+        · omega
+
+/-! ### two raw writes (move the tail, fill the gap) are one model write -/
+
+theorem writeAt_length (d : Bytes) (off : Nat) (s : Bytes) (h : off + s.length ≤ d.length) : (writeAt d off s).length = d.length := by
+  unfold writeAt; simp only [List.length_append, List.length_take, List.length_drop]; omega
+
+/-- moving the tail first and then filling the gap is one write of `s ++ tail` -/
+theorem writeAt_append (d : Bytes) (i : Nat) (s tail : Bytes) (h : i + s.length + tail.length ≤ d.length) :
+    writeAt (writeAt d (i + s.length) tail) i s = writeAt d i (s ++ tail) := by
+  unfold writeAt
+  have hA : (d.take (i + s.length)).length = i + s.length := by rw [List.length_take]; omega
+  have h1 : ((d.take (i + s.length) ++ tail ++ d.drop (i + s.length + tail.length)).take i) = d.take i := by
+    rw [List.append_assoc, List.take_append_of_le_length (by omega), List.take_take]
+    congr 1; omega
+  have h2 : ((d.take (i + s.length) ++ tail ++ d.drop (i + s.length + tail.length)).drop (i + s.length)) =
+      tail ++ d.drop (i + s.length + tail.length) := by
+    rw [List.append_assoc]
+    conv => lhs; arg 1; rw [← hA]
+    exact List.drop_left
+  rw [h1, h2, List.length_append]
+  simp only [List.append_assoc, Nat.add_assoc]
+
+theorem writeBytes_append {hp1 : Heap} {r1 : Handle} {idx : Nat} {s tail : Bytes} {hp3 : Heap} {r3 : Handle}
+    (hD : DataOk hp1) (hR : RawOk r1) (h : writeBytes hp1 r1 idx (s ++ tail) = .ok (hp3, r3)) :
+    ∃ hp2 r2, writeBytes hp1 r1 (idx + s.length) tail = .ok (hp2, r2) ∧ writeBytes hp2 r2 idx s = .ok (hp3, r3) := by
+  cases r1 with
+  | stat i l => simp only [writeBytes] at h; cases h
+  | inl raw =>
+    have hraw : raw.length = MAX_INLINE := hR
+    simp only [writeBytes, List.length_append] at h ⊢
+    by_cases hc : idx + (s.length + tail.length) ≤ MAX_INLINE ∧ raw.length = MAX_INLINE
+    · rw [if_pos hc] at h
+      have hl1 : (writeAt raw (idx + s.length) tail).length = MAX_INLINE := by rw [writeAt_length _ _ _ (by omega)]; exact hraw
+      refine ⟨hp1, .inl (writeAt raw (idx + s.length) tail), ?_, ?_⟩
+      · rw [if_pos ⟨by omega, hraw⟩]
+      · simp only []
+        rw [if_pos ⟨by omega, hl1⟩, writeAt_append raw idx s tail (by omega)]; exact h
+    · rw [if_neg hc] at h; cases h
+  | heap a l =>
+    simp only [writeBytes, Heap.write] at h ⊢
+    cases hg : hp1.get? a with
+    | none => rw [hg] at h; cases h
+    | some b =>
+      rw [hg] at h; simp only at h ⊢
+      have hdl := hD a b hg
+      by_cases h1 : b.rc ≠ 1
+      · rw [if_pos h1] at h; cases h
+      · rw [if_neg h1] at h ⊢
+        rw [List.length_append] at h
+        by_cases h2 : idx + (s.length + tail.length) > b.cap
+        · rw [if_pos h2] at h; cases h
+        · rw [if_neg h2] at h
+          rw [if_neg (by omega)]
+          refine ⟨_, _, rfl, ?_⟩
+          simp only [setBlock_get hp1 a b _ hg, h1, if_false]
+          rw [if_neg (by omega)]
+          simp only [] at h ⊢
+          rw [← h]
+          simp only [Heap.setBlock, List.set_set, writeAt_append b.data idx s tail (by omega)]
+
+/-- the text a handle reads is the first `len()` bytes of the storage it may write to -/
+theorem storage_text {hp1 : Heap} {st : List Bytes} {r1 : Handle} {t1 : Bytes} {off : Nat} {x : Bytes} {hp2 : Heap} {r2 : Handle}
+    (hD : DataOk hp1) (hR : RawOk r1) (ht : textOf hp1 st r1 = .ok t1) (hw : writeBytes hp1 r1 off x = .ok (hp2, r2)) :
+    ∃ stor, storageOf hp1 r1 = .ok stor ∧ t1 = stor.take r1.len ∧ r1.len ≤ stor.length := by
+  cases r1 with
+  | stat i l => simp only [writeBytes] at hw; cases hw
+  | inl raw =>
+    have hraw : raw.length = MAX_INLINE := hR
+    simp only [textOf, Except.ok.injEq] at ht
+    refine ⟨raw, rfl, ht.symm, ?_⟩
+    simp only [Handle.len]; rw [hraw]; unfold inlLen; omega
+  | heap a l =>
+    simp only [textOf] at ht
+    cases hg : hp1.get? a with
+    | none => rw [hg] at ht; cases ht
+    | some b =>
+      rw [hg] at ht; simp only at ht
+      by_cases hl : l ≤ b.cap
+      · rw [if_pos hl] at ht; injection ht with ht
+        exact ⟨b.data, by simp only [storageOf, hg], ht.symm, by simp only [Handle.len]; rw [hD a b hg]; exact hl⟩
+      · rw [if_neg hl] at ht; cases ht
+
+theorem text_len {hp : Heap} {st : List Bytes} {r : Handle} {t : Bytes} (hD : DataOk hp) (hR : RawOk r)
+    (ht : textOf hp st r = .ok t) : t.length = r.len := by
+  cases r with
+  | stat i l => exact textOf_stat_len ht
+  | inl raw =>
+    simp only [textOf, Except.ok.injEq] at ht
+    rw [← ht]; exact take_len_raw hR
+  | heap a l =>
+    simp only [textOf] at ht
+    cases hg : hp.get? a with
+    | none => rw [hg] at ht; cases ht
+    | some b =>
+      rw [hg] at ht; simp only at ht
+      by_cases hl : l ≤ b.cap
+      · rw [if_pos hl] at ht; injection ht with ht; rw [← ht]; exact take_len_block hD hg hl
+      · rw [if_neg hl] at ht; cases ht
+
 end LS.GenTie
